@@ -425,7 +425,11 @@ class Interp:
 
 
 def evalw(t, d, world, opaque=None):
-    r = Interp(d, world, opaque).ev(t)
+    try:
+        r = Interp(d, world, opaque).ev(t)
+    except RecursionError:
+        # a term the interpreter cannot reduce, nested deeper than the interpreter's own stack: undecided, reported by the caller
+        raise Unknown("term nests unknown operations too deeply to evaluate")
     return r
 
 
